@@ -23,6 +23,17 @@ type shapeGen struct {
 	reuse     bool // place the SAME inner flow object in two slots where the shape has room
 }
 
+// rotationOf: where in the kind list a scenario starts, so that across the scenarios of a
+// family every kind (and every kind x budget x fallback combination) gets its turn at every
+// position of the shapes.
+func rotationOf(name string) int {
+	h := 0
+	for i := 0; i < len(name); i++ {
+		h = (h*31 + int(name[i])) % 5040
+	}
+	return h
+}
+
 func (g *shapeGen) leaf(path string) *spec {
 	k := g.leafKinds[g.counter%len(g.leafKinds)]
 	n := 1 + g.counter%2
